@@ -3,7 +3,10 @@
 case = {"cert_reqs": default|REQUIRED|OPTIONAL|NONE, "assert_hostname": unset|false|<name>, "fingerprint": unset|right|wrong|badlen,
         "server_hostname": None|<name>, "context": none|default|nocheck, "trust": file|dir|data|none (how the CA is configured),
         "issuer": trusted (the configured CA) | system (a CA of the system store) | untrusted, "san": [names],
-        "host": requested host (resolved to the loopback server whatever it is)}
+        "host": requested host (resolved to the loopback server whatever it is),
+        "backend": ssl|pyopenssl (contrib.pyopenssl injected for the case), "route": direct|http_tunnel|https_tunnel,
+        "proxy": {"issuer", "san", "assert_hostname", "fingerprint", "context"} for https_tunnel}
+A tunnel goes through a proxy thread (plain or TLS) that answers CONNECT and relays to the TLS server.
 The system store is a file of the harness's own (SSL_CERT_FILE / SSL_CERT_DIR point at it) holding a third CA.
 A real TLS server (Python's ssl, certificates made with trustme) listens on 127.0.0.1; a real HTTPSConnectionPool makes one
 request.  Observation: did request bytes reach the server, how the call ended, was InsecureRequestWarning raised, what the
@@ -20,17 +23,18 @@ ID = "C07"
 GEN = ["Gen_Verify"]
 RULE = ("cert_reqs {default, REQUIRED, OPTIONAL, NONE} x assert_hostname {unset, False, matching name, other name} x assert_fingerprint {unset, right, wrong, "
         "bad length} x server_hostname {unset, matching, other} x ssl_context {none, default-like, check_hostname off} x issuer {trusted, untrusted} x "
-        "SAN shape {exact, other, wildcard, IPv4, IPv6} x requested host {name, upper case, trailing dot, IPv4, IPv6 with and without zone}, real TLS "
-        "handshakes on the loopback interface; non-trivial = every case; distinct = distinct (case, observation)")
+        "SAN shape {exact, other, wildcard, IPv4, IPv6} x requested host {name, upper case, trailing dot, IPv4, IPv6 with and without zone} x backend "
+        "{ssl, pyOpenSSL injected} x route {direct, CONNECT through an http proxy, CONNECT through an https proxy with its own issuer / SAN / "
+        "proxy_assert_hostname / proxy_assert_fingerprint / proxy_ssl_context}, real TLS handshakes (TLS in TLS for the https proxy) on the loopback interface; non-trivial = every case; distinct = distinct (case, observation)")
 TRUSTED_BASE = [
     "model coq/model/TlsVerify.v (resolve_cert_reqs, create_urllib3_context's verify_mode / check_hostname, _ssl_wrap_socket_and_match_hostname, HTTPSConnection.connect's is_verified, _validate_conn's warning)",
     "OpenSSL's chain validation and host-name check, and urllib3's match_hostname (C08), enter the model as three booleans computed by the harness from the certificate and the names (exact, one-label wildcard and IP comparison)",
-    "stdlib ssl backend, direct connections; the tunnel path calls the same function (not exercised with real TLS-in-TLS)",
+    "the proxy of the tunnel cases is the harness's own thread: it answers any CONNECT with 200 and relays to the TLS server",
 ]
 ASSUMPTIONS = ["no client certificates", "the system trust store is the one SSL_CERT_FILE / SSL_CERT_DIR name (OpenSSL's rule)",
                "a caller's ssl_context carries the configured CA when one is configured and no anchor otherwise"]
 EXHAUSTIVE = {"quick": False, "thorough": False}
-CASE_TIMEOUT = 60
+CASE_TIMEOUT = 120
 IMPL_SERIAL = False
 
 _PKI = {}
@@ -148,9 +152,16 @@ def effective_names(case):
 
 CR = {"default": 0, "REQUIRED": 1, "OPTIONAL": 2, "NONE": 3}
 FP = {"unset": 0, "right": 1, "wrong": 2, "badlen": 3}
-CTX = {"none": 0, "default": 1, "nocheck": 2}
+CTX = {"none": 0, "default": 1, "nocheck": 2, "pyopenssl": 3}
 TRUST = {"file": 0, "dir": 1, "data": 2, "none": 3}
 ISSUER = {"trusted": 0, "system": 1, "untrusted": 2}
+BACKEND = {"ssl": 0, "pyopenssl": 1}
+ROUTE = {"direct": 0, "http_tunnel": 1, "https_tunnel": 2}
+PROXY_HOST = "localhost"
+
+
+def _ah(v):
+    return 0 if v == "unset" else (1 if v == "false" else 2)
 
 
 def encode(case):
@@ -158,8 +169,18 @@ def encode(case):
     sh = sh.rstrip(".")
     ah = case["assert_hostname"]
     name_for_match = ah if ah not in ("unset", "false") else sh
-    return [CR[case["cert_reqs"]], 0 if ah == "unset" else (1 if ah == "false" else 2), FP[case["fingerprint"]], CTX[case["context"]],
-            TRUST[case["trust"]], ISSUER[case["issuer"]], B(san_matches(case["san"], sh)), B(san_matches(case["san"], name_for_match))]
+    out = [CR[case["cert_reqs"]], _ah(ah), FP[case["fingerprint"]], CTX[case["context"]],
+           TRUST[case["trust"]], ISSUER[case["issuer"]], B(san_matches(case["san"], sh)), B(san_matches(case["san"], name_for_match)),
+           BACKEND[case["backend"]], ROUTE[case["route"]]]
+    if case["route"] == "https_tunnel":
+        x = case["proxy"]
+        xa = x["assert_hostname"]
+        xname = xa if xa not in ("unset", "false") else PROXY_HOST
+        out.append([_ah(xa), FP[x["fingerprint"]], CTX[x["context"]], ISSUER[x["issuer"]], B(san_matches(x["san"], PROXY_HOST)),
+                    B(san_matches(x["san"], xname))])
+    else:
+        out.append([])
+    return out
 
 
 def describe(case):
@@ -167,6 +188,13 @@ def describe(case):
 
 
 _STASH = {}
+
+
+def _fingerprint_of(cert, which):
+    import hashlib as hl
+    import ssl
+    der_bytes = ssl.PEM_cert_to_DER_cert(cert.cert_chain_pems[0].bytes().decode())
+    return {"unset": None, "right": hl.sha256(der_bytes).hexdigest(), "wrong": "00" * 32, "badlen": "abcd"}[which]
 
 
 def impl(case):
@@ -187,8 +215,7 @@ def impl(case):
     lsock.bind(("127.0.0.1", 0))
     lsock.listen(4)
     port = lsock.getsockname()[1]
-    got = {"request": False, "handshakes": 0}
-
+    got = {"request": False, "handshakes": 0, "connect": False, "proxy_handshakes": 0}
     stop = {"now": False}
 
     def serve():
@@ -202,7 +229,7 @@ def impl(case):
                 except OSError:
                     return
                 try:
-                    c.settimeout(3)
+                    c.settimeout(20)
                     t = sctx.wrap_socket(c, server_side=True)
                     got["handshakes"] += 1
                     data = b""
@@ -222,36 +249,123 @@ def impl(case):
                         pass
         finally:
             lsock.close()
-    th = threading.Thread(target=serve, daemon=True)
-    th.start()
+    threads = [threading.Thread(target=serve, daemon=True)]
 
-    # every name resolves to the loopback server
+    # the proxy of the tunnel cases: (TLS,) CONNECT, 200, then bytes both ways
+    route = case["route"]
+    psock = None
+    pport = None
+    pcert = None
+    if route != "direct":
+        psock = socket.socket()
+        psock.bind(("127.0.0.1", 0))
+        psock.listen(4)
+        pport = psock.getsockname()[1]
+        pctx = None
+        if route == "https_tunnel":
+            pcert = server_cert(case["proxy"]["issuer"], case["proxy"]["san"])
+            pctx = ssl.SSLContext(ssl.PROTOCOL_TLS_SERVER)
+            pcert.configure_cert(pctx)
+
+        def relay(c, up):
+            """bytes both ways until either side is done (one thread: an SSLSocket is not to be read and written concurrently)"""
+            import select
+            idle = 0.0
+            while not stop["now"] and idle < 20:
+                ready = [c] if (hasattr(c, "pending") and c.pending()) else select.select([c, up], [], [], 0.05)[0]
+                if not ready:
+                    idle += 0.05
+                    continue
+                idle = 0.0
+                for src, dst in ((c, up), (up, c)):
+                    if src in ready:
+                        d = src.recv(65536)
+                        if not d:
+                            return
+                        dst.sendall(d)
+
+        def proxy():
+            psock.settimeout(0.05)
+            try:
+                while not stop["now"]:
+                    try:
+                        c, _ = psock.accept()
+                    except socket.timeout:
+                        continue
+                    except OSError:
+                        return
+                    up = None
+                    try:
+                        c.settimeout(20)
+                        if pctx is not None:
+                            c = pctx.wrap_socket(c, server_side=True)
+                            got["proxy_handshakes"] += 1
+                        data = b""
+                        while b"\r\n\r\n" not in data:
+                            chunk = c.recv(4096)
+                            if not chunk:
+                                break
+                            data += chunk
+                        if data.startswith(b"CONNECT "):
+                            got["connect"] = True
+                            up = socket.create_connection(("127.0.0.1", port), timeout=20)
+                            c.sendall(b"HTTP/1.1 200 Connection established\r\n\r\n")
+                            relay(c, up)
+                        elif data:
+                            got["request"] = True          # a request in the clear to the proxy: never expected
+                    except Exception:
+                        pass
+                    finally:
+                        for x in (c, up):
+                            try:
+                                if x is not None:
+                                    x.close()
+                            except Exception:
+                                pass
+            finally:
+                psock.close()
+        threads.append(threading.Thread(target=proxy, daemon=True))
+    for th in threads:
+        th.start()
+
+    # every name resolves to the loopback interface
     real_socket = uc.socket
     shim = types.ModuleType("shim_socket")
     for k in dir(socket):
         if not k.startswith("__"):
             setattr(shim, k, getattr(socket, k))
-    shim.getaddrinfo = lambda host, prt, family=0, type=0, proto=0, flags=0: [(socket.AF_INET, socket.SOCK_STREAM, 6, "", ("127.0.0.1", port))]
+    shim.getaddrinfo = lambda host, prt, family=0, type=0, proto=0, flags=0: [(socket.AF_INET, socket.SOCK_STREAM, 6, "", ("127.0.0.1", prt))]
     uc.socket = shim
 
-    der = cert.cert_chain_pems[0].bytes()
-    import hashlib as hl
-    der_bytes = ssl.PEM_cert_to_DER_cert(der.decode())
-    right = hl.sha256(der_bytes).hexdigest()
-    fp = {"unset": None, "right": right, "wrong": "00" * 32, "badlen": "abcd"}[case["fingerprint"]]
-    kw = {"retries": False, "timeout": 5}
+    injected = False
+    if case["backend"] == "pyopenssl":
+        import urllib3.contrib.pyopenssl as pyo
+        pyo.inject_into_urllib3()
+        injected = True
+
+    def caller_context(kind):
+        if kind == "pyopenssl":
+            import urllib3.contrib.pyopenssl as pyo
+            c = pyo.PyOpenSSLContext(ssl.PROTOCOL_TLS_CLIENT)
+            c.verify_mode = ssl.CERT_REQUIRED
+            if case["trust"] != "none":
+                c.load_verify_locations(cafile=p["ca_file"])
+            return c
+        c = ssl.SSLContext(ssl.PROTOCOL_TLS_CLIENT)        # check_hostname on, CERT_REQUIRED, no anchors
+        if case["trust"] != "none":
+            c.load_verify_locations(cafile=p["ca_file"])
+        if kind == "nocheck":
+            c.check_hostname = False
+        return c
+
+    fp = _fingerprint_of(cert, case["fingerprint"])
+    kw = {"retries": False, "timeout": 30}
     if case["trust"] == "file":
         kw["ca_certs"] = p["ca_file"]
     elif case["trust"] == "dir":
         kw["ca_cert_dir"] = p["ca_dir"]
     elif case["trust"] == "data":
         kw["ca_cert_data"] = p["ca_data"]
-
-    def caller_context():
-        c = ssl.SSLContext(ssl.PROTOCOL_TLS_CLIENT)        # check_hostname on, CERT_REQUIRED, no anchors
-        if case["trust"] != "none":
-            c.load_verify_locations(cafile=p["ca_file"])
-        return c
     if case["cert_reqs"] != "default":
         kw["cert_reqs"] = "CERT_" + case["cert_reqs"]
     if case["assert_hostname"] == "false":
@@ -262,23 +376,36 @@ def impl(case):
         kw["assert_fingerprint"] = fp
     if case["server_hostname"] is not None:
         kw["server_hostname"] = case["server_hostname"]
-    if case["context"] == "default":
-        kw["ssl_context"] = caller_context()
-    elif case["context"] == "nocheck":
-        c2 = caller_context()
-        c2.check_hostname = False
-        kw["ssl_context"] = c2
     problems = []
     outcome = 0
     warned = False
     verified = None
+    pm = None
     try:
         with warnings.catch_warnings(record=True) as w:
             warnings.simplefilter("always")
-            pool = HTTPSConnectionPool(case["host"], port, **kw)
+            if case["context"] != "none":
+                kw["ssl_context"] = caller_context(case["context"])
+            if route == "direct":
+                pool = HTTPSConnectionPool(case["host"], port, **kw)
+            else:
+                pkw = {}
+                if route == "https_tunnel":
+                    x = case["proxy"]
+                    if x["assert_hostname"] == "false":
+                        pkw["proxy_assert_hostname"] = False
+                    elif x["assert_hostname"] != "unset":
+                        pkw["proxy_assert_hostname"] = x["assert_hostname"]
+                    xfp = _fingerprint_of(pcert, x["fingerprint"])
+                    if xfp is not None:
+                        pkw["proxy_assert_fingerprint"] = xfp
+                    if x["context"] != "none":
+                        pkw["proxy_ssl_context"] = caller_context(x["context"])
+                scheme = "https" if route == "https_tunnel" else "http"
+                pm = urllib3.ProxyManager("%s://%s:%d" % (scheme, PROXY_HOST, pport), **pkw, **kw)
+                pool = pm.connection_from_host(case["host"], port, scheme="https")
             conns = []
             orig_new = pool._new_conn
-
             seen = {}
 
             def new_conn():
@@ -297,6 +424,10 @@ def impl(case):
                 outcome = 0
             except urllib3.exceptions.SSLError:
                 outcome = 1
+            except urllib3.exceptions.ProxyError as e:
+                outcome = 5 if isinstance(e.original_error, (urllib3.exceptions.SSLError, ssl.SSLError)) else 2
+                if outcome == 2:
+                    problems.append("the call failed with ProxyError: %s" % str(e)[:100])
             except urllib3.exceptions.HTTPError as e:
                 outcome = 2
                 problems.append("the call failed with %s: %s" % (type(e).__name__, str(e)[:100]))
@@ -309,56 +440,85 @@ def impl(case):
             if conns:
                 verified = seen.get("verified", False)
             pool.close()
+            if pm is not None:
+                pm.clear()
+    except Exception as e:
+        outcome = 4
+        problems.append("setting the case up failed: %s: %s" % (type(e).__name__, str(e)[:100]))
     finally:
+        if injected:
+            import urllib3.contrib.pyopenssl as pyo
+            pyo.extract_from_urllib3()
         uc.socket = real_socket
         stop["now"] = True
-        th.join(timeout=6)
+        for th in threads:
+            th.join(timeout=25)
     _STASH[id(case)] = problems
-    return [B(got["request"]), outcome, B(warned), Opt(None if verified is None else int(verified))]
+    return [B(got["request"]), outcome, B(warned), Opt(None if verified is None else int(verified)), B(got["connect"])]
+
+
+def _anchor_ok(case, issuer, context):
+    """the anchors the settings name: the configured CA, or - none configured, context left to urllib3 - the system store"""
+    if case["trust"] != "none":
+        return issuer == "trusted"
+    return issuer == "system" and context == "none"
+
+
+def _demanded(case, cert_reqs, fingerprint, ah, issuer, san, context, name, what):
+    """None when a peer with this certificate passes what the settings demand, else why not"""
+    if fingerprint != "unset":
+        return None if fingerprint == "right" else "the pinned fingerprint of %s does not match" % what
+    if cert_reqs == "NONE":
+        return None
+    if not _anchor_ok(case, issuer, context):
+        return "the certificate of %s was issued by %s, with the CA given as %s" % (
+            what, {"system": "a CA of the system store only", "untrusted": "an unknown CA", "trusted": "the test CA"}[issuer], case["trust"])
+    if ah != "false":
+        n = ah if ah != "unset" else name
+        if not san_matches(san, n):
+            return "the certificate of %s does not name %r" % (what, n)
+    return None
 
 
 def oracle(case, obs):
     problems = _STASH.pop(id(case), [])
     if problems:
         return problems[0]
-    sent, outcome, warned, verified = obs
+    sent, outcome, warned, verified, connect_seen = obs
     verified = bool(verified[0]) if verified else False
     sh = (case["server_hostname"] if case["server_hostname"] is not None else case["host"]).rstrip(".")
-    ah = case["assert_hostname"]
-    # the anchors the settings name: the configured CA, or - none configured, context left to urllib3 - the system store
-    if case["trust"] != "none":
-        chain_ok = case["issuer"] == "trusted"
-    else:
-        chain_ok = case["issuer"] == "system" and case["context"] == "none"
-    validating = case["cert_reqs"] != "NONE"
     pinned = case["fingerprint"] != "unset"
+    if case["route"] == "direct" and connect_seen:
+        return "a CONNECT on a direct connection"
+    if case["route"] == "https_tunnel" and (connect_seen or sent):
+        x = case["proxy"]
+        why = _demanded(case, case["cert_reqs"], x["fingerprint"], x["assert_hostname"], x["issuer"], x["san"], x["context"], PROXY_HOST, "the proxy")
+        if why:
+            return "the tunnel was asked for although " + why
     if sent:
-        if pinned:
-            if case["fingerprint"] != "right":
-                return "the request was sent although the pinned fingerprint does not match"
-        elif validating:
-            if not chain_ok:
-                return "the request was sent to a server whose certificate was issued by %s, with the CA given as %s" % (
-                    {"system": "a CA of the system store only", "untrusted": "an unknown CA", "trusted": "the test CA"}[case["issuer"]], case["trust"])
-            if ah != "false":
-                name = ah if ah != "unset" else sh
-                if not san_matches(case["san"], name):
-                    return "the request was sent although the certificate does not name %r" % name
+        if case["route"] != "direct" and not connect_seen:
+            return "the request arrived without a CONNECT"
+        why = _demanded(case, case["cert_reqs"], case["fingerprint"], case["assert_hostname"], case["issuer"], case["san"], case["context"], sh, "the server")
+        if why:
+            return "the request was sent although " + why
         if (not pinned and case["cert_reqs"] in ("NONE", "OPTIONAL")):
             if not warned:
-                return "an HTTPS request without certificate validation (cert_reqs=%s) raised no InsecureRequestWarning" % case["cert_reqs"]
+                return "an HTTPS request without certificate validation (cert_reqs=%s, %s) raised no InsecureRequestWarning" % (case["cert_reqs"], case["route"])
             if verified:
                 return "a connection made with cert_reqs=%s is reported as verified" % case["cert_reqs"]
     else:
         if outcome == 0:
             return "the call ended normally but the server saw no request"
-    if outcome not in (0, 1, 3):
+    if outcome not in (0, 1, 3, 5):
         return "the call ended in an unexpected way (%d)" % outcome
     return None
 
 
 def signature(case, obs, msg):
-    return {"msg": (msg or "")[:60]}
+    m = msg or ""
+    if "raised no InsecureRequestWarning" in m and case["route"] == "https_tunnel" and case["proxy"]["fingerprint"] == "right":
+        return {"kind": "no-warning-when-proxy-pinned"}
+    return {"msg": m[:60]}
 
 
 def nontrivial(case, obs):
@@ -366,9 +526,9 @@ def nontrivial(case, obs):
 
 
 def histogram(cases, obss):
-    h = {"cert_reqs": {}, "fingerprint": {}, "context": {}, "issuer": {}, "trust": {}, "sent": {}, "outcome": {}}
+    h = {"cert_reqs": {}, "fingerprint": {}, "context": {}, "issuer": {}, "trust": {}, "backend": {}, "route": {}, "sent": {}, "outcome": {}}
     for c, o in zip(cases, obss):
-        for k in ("cert_reqs", "fingerprint", "context", "issuer", "trust"):
+        for k in ("cert_reqs", "fingerprint", "context", "issuer", "trust", "backend", "route"):
             h[k][c[k]] = h[k].get(c[k], 0) + 1
         if o:
             h["sent"][str(bool(o[0]))] = h["sent"].get(str(bool(o[0])), 0) + 1
@@ -380,37 +540,72 @@ SANS = [["localhost"], ["other.example"], ["*.example.test"], ["127.0.0.1"], [":
 HOSTS = ["localhost", "LOCALHOST", "localhost.", "127.0.0.1", "[::1]", "[::1%25lo]", "www.example.test", "a.b.example.test"]
 
 
+def one_proxy(rng):
+    return {"issuer": rng.choice(["trusted", "trusted", "trusted", "untrusted", "system"]), "san": rng.choice([["localhost"], ["localhost"], ["other.example"]]),
+            "assert_hostname": rng.choice(["unset", "unset", "false", "localhost", "other.example"]),
+            "fingerprint": rng.choice(["unset", "unset", "unset", "right", "wrong"]),
+            "context": rng.choice(["none", "none", "default", "nocheck", "pyopenssl"])}
+
+
 def one_case(rng):
     host = rng.choice(HOSTS)
-    return {"cert_reqs": rng.choice(["default", "REQUIRED", "OPTIONAL", "NONE"]),
-            "assert_hostname": rng.choice(["unset", "unset", "false", "localhost", "other.example", "www.example.test"]),
-            "fingerprint": rng.choice(["unset", "unset", "unset", "right", "wrong", "badlen"]),
-            "server_hostname": rng.choice([None, None, "localhost", "other.example"]),
-            "context": rng.choice(["none", "none", "default", "nocheck"]),
-            "trust": rng.choice(["file", "file", "dir", "data", "none"]),
-            "issuer": rng.choice(["trusted", "trusted", "untrusted", "system"]), "san": rng.choice(SANS), "host": host}
+    route = rng.choice(["direct", "direct", "http_tunnel", "https_tunnel", "https_tunnel"])
+    c = {"cert_reqs": rng.choice(["default", "REQUIRED", "OPTIONAL", "NONE"]),
+         "assert_hostname": rng.choice(["unset", "unset", "false", "localhost", "other.example", "www.example.test"]),
+         "fingerprint": rng.choice(["unset", "unset", "unset", "right", "wrong", "badlen"]),
+         "server_hostname": rng.choice([None, None, "localhost", "other.example"]),
+         "context": rng.choice(["none", "none", "default", "nocheck", "pyopenssl"]),
+         "trust": rng.choice(["file", "file", "dir", "data", "none"]),
+         "issuer": rng.choice(["trusted", "trusted", "untrusted", "system"]), "san": rng.choice(SANS), "host": host,
+         "backend": rng.choice(["ssl", "ssl", "pyopenssl"]), "route": route}
+    if route == "https_tunnel":
+        c["proxy"] = one_proxy(rng)
+    return c
+
+
+GOOD_PROXY = {"issuer": "trusted", "san": ["localhost"], "assert_hostname": "unset", "fingerprint": "unset", "context": "none"}
 
 
 def cases(rng, tier):
     out = []
+    base = {"server_hostname": None, "host": "localhost", "backend": "ssl", "route": "direct", "trust": "file"}
     for cr in ("default", "REQUIRED", "OPTIONAL", "NONE"):
         for ah in ("unset", "false", "localhost", "other.example"):
             for fp in ("unset", "right", "wrong", "badlen"):
                 for ctx in ("none", "default", "nocheck"):
                     for issuer in ("trusted", "untrusted"):
                         for san in (["localhost"], ["other.example"]):
-                            out.append({"cert_reqs": cr, "assert_hostname": ah, "fingerprint": fp, "server_hostname": None, "context": ctx, "issuer": issuer,
-                                        "trust": "file", "san": san, "host": "localhost"})
+                            out.append(dict(base, cert_reqs=cr, assert_hostname=ah, fingerprint=fp, context=ctx, issuer=issuer, san=san))
     if tier == "quick":
-        out = [c for i, c in enumerate(out) if i % 2 == 0]
+        out = [c for i, c in enumerate(out) if i % 4 == 0]
     for trust in ("file", "dir", "data", "none"):
         for issuer in ("trusted", "system", "untrusted"):
             for ctx in ("none", "default", "nocheck"):
                 for cr in ("default", "REQUIRED", "OPTIONAL", "NONE"):
                     for ah in ("unset", "false"):
-                        out.append({"cert_reqs": cr, "assert_hostname": ah, "fingerprint": "unset", "server_hostname": None, "context": ctx,
-                                    "issuer": issuer, "trust": trust, "san": ["localhost"], "host": "localhost"})
-    for _ in range(500 if tier == "quick" else 6000):
+                        out.append(dict(base, cert_reqs=cr, assert_hostname=ah, fingerprint="unset", context=ctx, issuer=issuer, trust=trust, san=["localhost"]))
+    # the other backend and the tunnels, over the decisions that differ there
+    for backend in ("ssl", "pyopenssl"):
+        for route in ("direct", "http_tunnel", "https_tunnel"):
+            if backend == "ssl" and route == "direct":
+                continue
+            for cr in ("default", "OPTIONAL", "NONE"):
+                for ctx in ("none", "default", "nocheck", "pyopenssl"):
+                    for fp in ("unset", "right", "wrong"):
+                        for issuer, san in (("trusted", ["localhost"]), ("trusted", ["other.example"]), ("untrusted", ["localhost"])):
+                            c = dict(base, backend=backend, route=route, cert_reqs=cr, assert_hostname="unset", fingerprint=fp, context=ctx, issuer=issuer, san=san)
+                            if route == "https_tunnel":
+                                c["proxy"] = dict(GOOD_PROXY)
+                            out.append(c)
+    # the proxy's own checks
+    for cr in ("default", "NONE"):
+        for xi, xsan in (("trusted", ["localhost"]), ("trusted", ["other.example"]), ("untrusted", ["localhost"]), ("system", ["localhost"])):
+            for xah in ("unset", "false", "other.example"):
+                for xfp in ("unset", "right", "wrong"):
+                    for xctx in ("none", "default", "nocheck", "pyopenssl"):
+                        out.append(dict(base, route="https_tunnel", cert_reqs=cr, assert_hostname="unset", fingerprint="unset", context="none", issuer="trusted",
+                                        san=["localhost"], proxy={"issuer": xi, "san": xsan, "assert_hostname": xah, "fingerprint": xfp, "context": xctx}))
+    for _ in range(400 if tier == "quick" else 6000):
         out.append(one_case(rng))
     return out
 
